@@ -196,6 +196,9 @@ def main(ctx):
     uneven = []
     for lu in ([{"cls": "Halton", "bs": 3}], [{"cls": "RandomUniform", "bs": 3}, {"cls": "BestBatch", "bs": 2}], [{"cls": "RSequence", "bs": 4}]):
         uneven.append({"lineup": lu, "seed": S, "dims": 2, "model": "slow_uneven2", "ensemble": 2, "loss": "minkowski", "batches": 2 * len(lu)})
+    # larger-scope probes: five samplers, ensemble 5, batch size 7, 12 batches
+    five = [{"cls": c, "bs": b} for c, b in zip(("Halton", "BestBatch", "RandomUniform", "XGBoost", "RSequence"), (7, 3, 2, 2, 4))]
+    cfgs.append({"lineup": five, "seed": S, "dims": 3, "model": "gauss2", "ensemble": 5, "loss": "minkowski", "batches": 12})
     singles = [[d] for d in DEVIATIONS]
     pairs = [list(p) for p in itertools.combinations(DEVIATIONS, 2) if not (p[0].startswith("jobs") and p[1].startswith("jobs")) and not (p[0].startswith("ctor") and p[1].startswith("ctor"))]
     cells = []
